@@ -383,6 +383,28 @@ class VersionsMachine(RuleBasedStateMachine):
             pos %= len(self.records)
         self._add(pos, vid, proto, supported)
 
+    @rule(which=st.integers(0, 10 ** 6),
+          kind=st.sampled_from(['ord', 'pre']), supported=st.booleans(),
+          pos=st.one_of(st.none(), st.integers(0, 10 ** 6)))
+    def repeat_id_record(self, which, kind, supported, pos):
+        # an id that is already in the records, listed again with ANOTHER
+        # protocol number (a snapshot re-published under the same name):
+        # both numbers are known, in record order; the name maps to the
+        # later one
+        self.hist.append(('repeat_id_record', dict(
+            which=which, kind=kind, supported=supported, pos=pos)))
+        mc = self.mc
+        vid = self.records[which % len(self.records)][0]
+        rec = mc.Version(vid, self._new_proto(kind), supported)
+        if pos is None:
+            mc.KNOWN_MINECRAFT_VERSION_RECORDS.append(rec)
+            self.records.append(tuple(rec))
+        else:
+            pos %= len(self.records)
+            mc.KNOWN_MINECRAFT_VERSION_RECORDS.insert(pos, rec)
+            self.records.insert(pos, tuple(rec))
+            self.nontail = True
+
     @precondition(lambda self: self.added)
     @rule(which=st.integers(0, 10 ** 6))
     def flip_supported(self, which):
